@@ -38,6 +38,8 @@ func main() {
 		os.Exit(cmdFunc(os.Args[2:]))
 	case "list":
 		os.Exit(cmdList(os.Args[2:]))
+	case "replay":
+		os.Exit(cmdReplay(os.Args[2:]))
 	}
 	fmt.Fprintln(os.Stderr, "unknown command")
 	os.Exit(2)
@@ -229,6 +231,7 @@ func cmdCheck(args []string) int {
 		for i, o := range res.Obligations {
 			if hasProp(o.Props, *prop) {
 				jobs = append(jobs, job{res.Ctx, o, len(jobs)*0 + i + nfun*100000})
+				v.ctxOf[o] = res.Ctx
 			}
 		}
 	}
@@ -466,9 +469,58 @@ func writeReplay(dir, prop string, o *Obligation, v *Verifier) replayResult {
 		if res != nil && res["outcome"] == "confirmed" {
 			outcome = "confirmed"
 		}
+	} else if c := v.ctxOf[o]; c != nil {
+		// no model from the solver (quantified query): try a candidate from the quantifier-free relaxation
+		tmp, _ := os.MkdirTemp("", "govc-relax")
+		if m := relaxedModel(c, o, tmp); m != nil {
+			o.Model = m
+			rp["model"] = m
+			rp["model_note"] = "candidate from the quantifier-free relaxation of the query; only meaningful if it replays"
+			res := v.replayModel(o)
+			rp["replay"] = res
+			if res != nil && res["outcome"] == "confirmed" {
+				outcome = "confirmed"
+			}
+		}
+		os.RemoveAll(tmp)
 	}
 	rp["outcome"] = outcome
 	data, _ := json.MarshalIndent(rp, "", " ")
 	os.WriteFile(path, data, 0o644)
 	return replayResult{path, outcome}
+}
+
+// cmdReplay re-runs the generated test stored in a replay file against the repository.
+func cmdReplay(args []string) int {
+	fs := flag.NewFlagSet("replay", flag.ExitOnError)
+	repo := fs.String("repo", "/repo", "repository")
+	fs.Parse(args)
+	if fs.NArg() != 1 {
+		fmt.Fprintln(os.Stderr, "usage: govc replay [-repo dir] file.json")
+		return 2
+	}
+	data, err := os.ReadFile(fs.Arg(0))
+	if err != nil {
+		fmt.Fprintln(os.Stderr, err)
+		return 2
+	}
+	var rp map[string]interface{}
+	if err := json.Unmarshal(data, &rp); err != nil {
+		fmt.Fprintln(os.Stderr, err)
+		return 2
+	}
+	fmt.Printf("obligation: %v\nclause: %v\nstatus: %v\n", rp["obligation"], rp["clause"], rp["status"])
+	r, _ := rp["replay"].(map[string]interface{})
+	if r == nil || r["test_source"] == nil {
+		fmt.Println("no executable replay recorded for this obligation (no-failing-input-found); solver output:")
+		fmt.Println(rp["solver_output"])
+		return 1
+	}
+	out, outcome := runReplayTest(*repo, r["package_dir"].(string), r["test_source"].(string))
+	fmt.Println(out)
+	fmt.Println("replay outcome:", outcome)
+	if outcome == "confirmed" {
+		return 1
+	}
+	return 0
 }
